@@ -1,5 +1,6 @@
 import Mkdb.Proofs.Redo
 import Mkdb.Proofs.Wal
+import Mkdb.Proofs.RedoLink
 /-!
 # C02 — acknowledged statements survive a crash between statements
 
@@ -47,3 +48,31 @@ records start-up recovery reads. -/
 theorem C02_log_roundtrip (rs : List Rec) (h : ∀ r ∈ rs, r.wf) :
     readLog (encodeLog rs) = .ok rs (encodeLog rs).length false := readLog_encodeLog rs h
 end Mkdb.Wal
+
+namespace Mkdb.RedoLink
+open Mkdb.Engine Mkdb.Store Mkdb.Page
+
+/-- **C02.concrete_replay_is_the_redo_rule**: on UPDATE and DELETE records the concrete recovery model
+(`Mkdb.Engine.replayAll`, the model of `WALBatch.replay` that is compared with the implementation on
+crash images) *is* the abstract redo rule, page by page, under the abstraction "page = LSN and
+content the engine sees at the offset" - so the theorems above are statements about it. -/
+theorem C02_concrete_replay_is_the_redo_rule (log : List WalRec) (s : Store) (h : LogFits log s) :
+    (replayAll log s).2 = (none, false) ∧
+      absPages (replayAll log s).1 = Redo.replay (log.map toAbs) (absPages s) :=
+  replayAll_is_replay log s h
+
+/-- **C02.concrete_recovery_reconstructs**: for every crashed store whose pages are, each, the cached
+page as of some earlier moment of the history (`Redo.Image`: any flush placement, any torn flush),
+the concrete replay of a log of UPDATE / DELETE records ends without error and every page is the
+page the acknowledged statements had built. -/
+theorem C02_concrete_recovery_reconstructs (log : List WalRec) (s : Store)
+    (init : Redo.Pages (Option Node)) (k : Nat → Nat) (hfit : StaticFits log s)
+    (himg : absPages s = Redo.Image (log.map toAbs) init k) (hok : Redo.LogOK (log.map toAbs) init) :
+    (replayAll log s).2 = (none, false) ∧
+      ∀ p, absPages (replayAll log s).1 p = Redo.run (log.map toAbs) init p :=
+  concrete_recovery_reconstructs_static log s init k hfit himg hok
+
+/-- non-vacuity: one leaf on disk, an update and a delete in the log, file flushed after the first -/
+example : StaticFits exLog exStore1 ∧ Redo.LogOK (exLog.map toAbs) (absPages exStore) := ⟨ex_static1, ex_logOK⟩
+
+end Mkdb.RedoLink
